@@ -533,6 +533,15 @@ func famMeta(sh *Shards, n int, stats map[string]int) error {
 			emit(fmt.Sprintf("meta/len-modulo/pal/%d", extra), stream(1, 1, [][]byte{append(natBytes(uint32(len(b2))+extra, 4), b2...)}, tails[1]))
 		}
 	}
+	// a last chunk that declares more bytes than the input has left (round 10): the input ends right after the metadata,
+	// or one byte / a whole body follows
+	for _, d := range []int{1, 2, 7, 50} {
+		for ti, tail := range [][]byte{nil, {0xe1}, tails[1]} {
+			emit(fmt.Sprintf("meta/too-long/vb/%+d/tail%d", d, ti), stream(1, 1, [][]byte{vbChunk(vbs[0].v, [4]int{1, 1, 1, 1}, d, 1)}, tail))
+			emit(fmt.Sprintf("meta/too-long/pal/%+d/tail%d", d, ti), stream(1, 1, [][]byte{palChunk(3, 2, colorGen(3, 0), d, 1)}, tail))
+			emit(fmt.Sprintf("meta/too-long/two/%+d/tail%d", d, ti), stream(2, 1, [][]byte{vb0, palChunk(1, 3, colorGen(1, 0), d, 1)}, tail))
+		}
+	}
 	// chunks whose declared length is tiny (0..5) while the MID is written in 1, 2 or 4 bytes (the length then cannot
 	// even hold the MID), for both kinds of chunk
 	for _, mw := range []int{1, 2, 4} {
